@@ -1,3 +1,4 @@
+mod builder;
 mod check;
 mod conv;
 mod cup;
